@@ -197,10 +197,14 @@ def memsim_ops(config, flags):
                 reg(f'op_einsum_3<{t},{m},{n},{p}>', 'einsum')
             if checks:
                 reg(f'op_badindex3<{t},{m},{n},{p}>', 'badindex', 'F_BADINDEX')
+                reg(f'op_badindex_map3<{t},{m},{n},{p}>', 'badindex', 'F_BADINDEX | F_ANYALIGN')
         for n in SQUARES:
             reg(f'op_view_diag<{t},{n}>', 'view_diag')
             if checks:
                 reg(f'op_badindex1<{t},{n}>', 'badindex', 'F_BADINDEX')
+        if checks:
+            for sh4 in ('2,2,2,3', '2,3,2,5', '3,2,4,2'):
+                reg(f'op_badindex4<{t},{sh4}>', 'badindex', 'F_BADINDEX')
         reg(f'op_cast<{t},{"double" if t != "double" else "float"},3,5>', 'cast')
         reg(f'op_cast<{t},{"int" if t != "int" else "float"},2,9>', 'cast')
         for sh in ('7', '3,3', '2,3,5', '17'):
